@@ -11,7 +11,7 @@ Supported subset (what the leaf functions of api.py's row-group filter use):
                                branch must already be bound before the `if`)
   return <expr>
   expressions: names, None/True/False/int/str constants, list displays, a single comparison
-  (== != < <= > >= in, not in, is None, is not None), and/or/not, len(x), sorted(x),
+  (== != < <= > >= in, not in (right operand may be a tuple display), is None, is not None), and/or/not, len(x), sorted(x),
   isinstance(x, np.ndarray), np.searchsorted(a, v, side='left'|'right'), x[<int constant>],
   calls of other translated functions (positional/keyword, defaults filled in).
 
@@ -131,6 +131,9 @@ class Tr:
                      ast.Gt: "py_gt", ast.GtE: "py_ge", ast.In: "py_in", ast.NotIn: "py_not_in"}
             if type(op) not in table:
                 self.bad(e, "comparison operator")
+            if isinstance(op, (ast.In, ast.NotIn)) and isinstance(r, ast.Tuple):
+                # membership in a tuple display is membership in the list of its elements
+                r = ast.copy_location(ast.List(elts=r.elts, ctx=ast.Load()), r)
             return self.binds([l, r], lambda ns: "(%s %s %s)" % (table[type(op)], ns[0], ns[1]))
         if isinstance(e, ast.BoolOp):
             # a and b and c  ==  a and (b and c); value semantics (returns the deciding operand)
